@@ -604,6 +604,11 @@ class Run:
             self.v("C07", "balances_changed_by_rejected_call",
                    f"{name}({_fmt(args)}) raised {type(ex).__name__}({ex}) but balances changed: {diff}",
                    mechanism=self._classify_c07(name, ex, before, after))
+        if name == "create_order" and any(i not in kb[1] for i in ka[1]):
+            # C06: a request is either accepted (and reserves its funds) or rejected - a rejected one is not a live order
+            self.v("C06", "rejected_request_left_an_order",
+                   f"{name}({_fmt(args)}) raised {type(ex).__name__}({ex}) but the exchange now lists "
+                   f"{len(ka[1]) - len(kb[1])} more order(s), {len(ka[2])} open")
         if kb[1] != ka[1] or kb[2] != ka[2]:
             changed = [i for i in ka[1] if kb[1].get(i) != ka[1][i]]
             self.v("C07", "orders_changed_by_rejected_call",
@@ -1039,10 +1044,13 @@ class Run:
         if len(snap.orders) != len(self.order_seq):
             self.v("C05", "orders_listing_mismatch", f"{len(snap.orders)} orders listed, {len(self.order_seq)} accepted")
         # ---- C06: holds
-        if not exp_open:
+        if not exp_open or not snap.open_ids:
+            # (either view of "open": the states listed by get_orders() or the listing of get_open_orders())
             for s, (a, h, b) in snap.bal.items():
                 if h != 0:
-                    self.v("C06", "hold_without_open_order", f"{s}: {h} on hold but no order is open at {where}",
+                    self.v("C06", "hold_without_open_order",
+                           f"{s}: {h} on hold but no order is open at {where}"
+                           f"{'' if not exp_open else ' according to get_open_orders() (' + str(len(exp_open)) + ' open by state)'}",
                            mechanism=self._classify_stuck_hold(snap))
         in_sync = all(
             self.events[i] and _ostate(self.events[i][-1][1]) == _ostate(o)
